@@ -12,8 +12,17 @@
     inside parentheses and at the top there is none (level 0).
   * The table (`Table`) is a parameter of everything here; `genTable` is the one REGENERATED from parser.y
     (Csvq/Gen/Precedence.lean), which the driver and the instantiated theorems use.
-  Not in this fragment (validated by correspondence only): BETWEEN, IN, the NOT LIKE / NOT IN / NOT BETWEEN forms,
-  ANY / ALL, row values, and every non-operator `value`.
+  * Also in the fragment (wave 17), with decisions that are NOT those of a binary operator:
+    `value NOT LIKE value` — the loop decides on NOT with the declared level of NOT, the right operand is read with the
+    level of LIKE (`nbin`); `value [NOT] BETWEEN value AND value` — the rule has the level of its last terminal AND, so the
+    upper bound is read with that level pending; the lower bound is read with no rule pending by a loop that ends at the
+    first AND it meets (`ba`), which is what the LALR automaton does (the states after `value BETWEEN value` shift AND
+    into the BETWEEN production, the reduce/reduce conflict behind it is resolved for BETWEEN) (`between`);
+    `value [NOT] IN ( values )` (`inl`); function calls `identifier ( [values] )` (`call`); `CURSOR c IS [NOT] OPEN |
+    IN RANGE` (`cstat`) and `CURSOR c COUNT` (`cattr`).  `Args` is the list type (mutual with `Expr`).
+  Not in this fragment (validated by correspondence only): CASE, sub-queries (scalar, IN, EXISTS, ANY / ALL), row values,
+  aggregate / analytic / list functions, SUBSTRING … FROM … FOR, and the other one-token values beyond identifiers and
+  numbers (to the token-level model they are atoms).
 -/
 import Csvq.Gen.Precedence
 namespace Csvq.OpExpr
@@ -43,27 +52,58 @@ structure Table (α : Type) where
   bin : α → Option (Nat × Assoc)     -- `value T value`
   pre : α → Option Nat               -- `T value [%prec P]`: level of P
   post : α → Option (Nat × Assoc)    -- `value T negation (ternary | null)`
-  neg : α                            -- the token of `negation`
+  neg : α                            -- the token of `negation` (NOT)
   star : α                           -- `*`, which is also the select item "all columns"
+  lvl : α → Option (Nat × Assoc)     -- the declared level of a token: decides whether NOT / BETWEEN / IN is shifted
+  btw : α                            -- BETWEEN
+  and_ : α                           -- AND (also the separator of BETWEEN's bounds)
+  inn : α                            -- IN
+  is_ : α                            -- IS (in `CURSOR c IS …`)
+  negable : α → Bool                 -- binary operators with a production `value NOT T value` (LIKE)
 
 inductive Tok (α : Type)
-  | atom (n : Nat)                   -- an identifier or a number
+  | atom (n : Nat)                   -- a one-token value: identifier (even code) or number (odd code)
   | lpar | rpar
   | sym (t : α) (v : Nat)            -- an operator / keyword terminal; `v` tells its spellings apart (`<`, `<=`, …)
-  | lit (w : Nat)                    -- NULL, TRUE, FALSE, UNKNOWN after IS
+  | lit (w : Nat)                    -- a reserved word of the expression grammar: 0–3 NULL TRUE FALSE UNKNOWN (after IS),
+                                     -- 9 CURSOR, 10 OPEN, 11 RANGE, 12 COUNT
   | kw (k : Kw)                      -- a clause keyword or `,` `.`
   deriving DecidableEq, Repr
 
+mutual
 inductive Expr (α : Type)
   | atom (n : Nat)
   | paren (e : Expr α)                                   -- Parentheses{Expr}
   | pre (t : α) (v : Nat) (e : Expr α)                   -- UnaryArithmetic / UnaryLogic
   | bin (l : Expr α) (t : α) (v : Nat) (r : Expr α)      -- Arithmetic / Comparison / Logic / Like / Concat
   | post (e : Expr α) (t : α) (neg : Bool) (w : Nat)     -- Is{LHS, RHS, Negation}
-  deriving DecidableEq, Repr
+  | nbin (l : Expr α) (t : α) (v : Nat) (r : Expr α)     -- Like{LHS, Pattern, Negation: NOT}: `l NOT LIKE r`
+  | between (e : Expr α) (neg : Bool) (lo hi : Expr α)   -- Between{LHS, Low, High, Negation}
+  | inl (e : Expr α) (neg : Bool) (vs : Args α)          -- In{LHS, Values: RowValue{ValueList}, Negation}
+  | call (f : Nat) (as : Args α)                         -- Function{Name, Args}
+  | cstat (c : Nat) (neg : Bool) (range : Bool)          -- CursorStatus{Cursor, Negation, Type: OPEN | RANGE}
+  | cattr (c : Nat)                                      -- CursorAttrebute{Cursor, Attrebute: COUNT}
+inductive Args (α : Type)
+  | nil
+  | cons (e : Expr α) (rest : Args α)
+end
+
+deriving instance DecidableEq for Expr, Args
+deriving instance Repr for Expr, Args
 
 variable {α : Type} [DecidableEq α]
 
+def Args.len : Args α → Nat
+  | .nil => 0
+  | .cons _ r => r.len + 1
+
+/-- atoms are identifiers (even codes) or numbers (odd codes): function and cursor names must be identifiers -/
+def isId (n : Nat) : Bool := n % 2 = 0
+def isNum (n : Nat) : Bool := n % 2 = 1
+
+def negToks (tbl : Table α) (neg : Bool) : List (Tok α) := if neg then [.sym tbl.neg 0] else []
+
+mutual
 /-- the `String()` methods, as tokens -/
 def print (tbl : Table α) : Expr α → List (Tok α)
   | .atom n => [.atom n]
@@ -71,51 +111,158 @@ def print (tbl : Table α) : Expr α → List (Tok α)
   | .pre t v e => .sym t v :: print tbl e
   | .bin l t v r => print tbl l ++ .sym t v :: print tbl r
   | .post e t neg w => print tbl e ++ .sym t 0 :: ((if neg then [.sym tbl.neg 0] else []) ++ [.lit w])
+  | .nbin l t v r => print tbl l ++ .sym tbl.neg 0 :: .sym t v :: print tbl r
+  | .between e neg lo hi =>
+    print tbl e ++ (negToks tbl neg ++ .sym tbl.btw 0 :: (print tbl lo ++ .sym tbl.and_ 0 :: print tbl hi))
+  | .inl e neg vs => print tbl e ++ (negToks tbl neg ++ .sym tbl.inn 0 :: .lpar :: (printArgs tbl vs ++ [.rpar]))
+  | .call f as => .atom f :: .lpar :: (printArgs tbl as ++ [.rpar])
+  | .cstat c neg range =>
+    .lit 9 :: .atom c :: .sym tbl.is_ 0 :: (negToks tbl neg ++ (if range then [.sym tbl.inn 0, .lit 11] else [.lit 10]))
+  | .cattr c => [.lit 9, .atom c, .lit 12]
+/-- listQueryExpressions: the elements separated by `,` -/
+def printArgs (tbl : Table α) : Args α → List (Tok α)
+  | .nil => []
+  | .cons e .nil => print tbl e
+  | .cons e (.cons e2 r) => print tbl e ++ .kw .comma :: printArgs tbl (.cons e2 r)
+end
 
 /-- what follows the postfix test token: `[NOT] (NULL | TRUE | FALSE | UNKNOWN)` -/
 def postTail (tbl : Table α) : List (Tok α) → Option (Bool × Nat × List (Tok α))
-  | .lit w :: ts => some (false, w, ts)
-  | .sym t2 _ :: .lit w :: ts => if t2 = tbl.neg then some (true, w, ts) else none
+  | .lit w :: ts => if w < 4 then some (false, w, ts) else none
+  | .sym t2 _ :: .lit w :: ts => if t2 = tbl.neg ∧ w < 4 then some (true, w, ts) else none
+  | _ => none
+
+def expectLpar : List (Tok α) → Option (List (Tok α))
+  | .lpar :: ts => some ts
+  | _ => none
+def expectRpar : List (Tok α) → Option (List (Tok α))
+  | .rpar :: ts => some ts
+  | _ => none
+def takeComma : List (Tok α) → Option (List (Tok α))
+  | .kw .comma :: ts => some ts
+  | _ => none
+def nextSym : List (Tok α) → Option (α × Nat × List (Tok α))
+  | .sym t v :: ts => some (t, v, ts)
+  | _ => none
+def expectSym (t : α) : List (Tok α) → Option (List (Tok α))
+  | .sym t2 _ :: ts => if t2 = t then some ts else none
+  | _ => none
+
+/-- `CURSOR c IS [NOT] OPEN` | `CURSOR c IS [NOT] IN RANGE` | `CURSOR c COUNT`, the CURSOR token already read -/
+def parseCursor (tbl : Table α) : List (Tok α) → Option (Expr α × List (Tok α))
+  | .atom c :: .lit 12 :: ts => if isId c then some (.cattr c, ts) else none
+  | .atom c :: .sym t _ :: .lit 10 :: ts => if isId c ∧ t = tbl.is_ then some (.cstat c false false, ts) else none
+  | .atom c :: .sym t _ :: .sym t2 _ :: .lit 10 :: ts =>
+    if isId c ∧ t = tbl.is_ ∧ t2 = tbl.neg then some (.cstat c true false, ts) else none
+  | .atom c :: .sym t _ :: .sym t2 _ :: .lit 11 :: ts =>
+    if isId c ∧ t = tbl.is_ ∧ t2 = tbl.inn then some (.cstat c false true, ts) else none
+  | .atom c :: .sym t _ :: .sym t2 _ :: .sym t3 _ :: .lit 11 :: ts =>
+    if isId c ∧ t = tbl.is_ ∧ t2 = tbl.neg ∧ t3 = tbl.inn then some (.cstat c true true, ts) else none
   | _ => none
 
 mutual
-/-- an operand followed by the operators that bind tighter than the pending rule `r` -/
-def parseE (tbl : Table α) : Nat → Nat → List (Tok α) → Option (Expr α × List (Tok α))
-  | 0, _, _ => none
-  | n + 1, r, ts =>
+/-- an operand followed by the operators that bind tighter than the pending rule `r`; `ba`: this is the lower bound of a
+    BETWEEN, whose AND ends it -/
+def parseE (tbl : Table α) : Nat → Nat → Bool → List (Tok α) → Option (Expr α × List (Tok α))
+  | 0, _, _, _ => none
+  | n + 1, r, ba, ts =>
     match parseUnit tbl n ts with
-    | some (u, ts1) => parseLoop tbl n r u ts1
+    | some (u, ts1) => parseLoop tbl n r ba u ts1
     | none => none
-/-- atom, parenthesised expression, or prefix operator with its operand -/
+/-- atom, function call, parenthesised expression, prefix operator with its operand, CURSOR status -/
 def parseUnit (tbl : Table α) : Nat → List (Tok α) → Option (Expr α × List (Tok α))
   | 0, _ => none
   | n + 1, ts =>
     match ts with
-    | .atom k :: ts => some (.atom k, ts)
+    | .atom k :: ts =>
+      match expectLpar ts with
+      | none => some (.atom k, ts)
+      | some ts1 =>
+        if isId k then
+          match expectRpar ts1 with
+          | some ts2 => some (.call k .nil, ts2)
+          | none =>
+            match parseArgs tbl n ts1 with
+            | some (as, ts2) =>
+              match expectRpar ts2 with
+              | some ts3 => some (.call k as, ts3)
+              | none => none
+            | none => none
+        else none
     | .lpar :: ts =>
-      match parseE tbl n 0 ts with
+      match parseE tbl n 0 false ts with
       | some (e, .rpar :: ts') => some (.paren e, ts')
       | _ => none
     | .sym t v :: ts =>
       match tbl.pre t with
       | some p =>
-        match parseE tbl n p ts with
+        match parseE tbl n p false ts with
         | some (e, ts') => some (.pre t v e, ts')
         | none => none
       | none => none
+    | .lit w :: ts => if w = 9 then parseCursor tbl ts else none
     | _ => none
+/-- `value (, value)*` -/
+def parseArgs (tbl : Table α) : Nat → List (Tok α) → Option (Args α × List (Tok α))
+  | 0, _ => none
+  | n + 1, ts =>
+    match parseE tbl n 0 false ts with
+    | some (e, ts1) =>
+      match takeComma ts1 with
+      | some ts2 =>
+        match parseArgs tbl n ts2 with
+        | some (more, ts3) => some (.cons e more, ts3)
+        | none => none
+      | none => some (.cons e .nil, ts1)
+    | none => none
+/-- what follows `value [NOT]` when the next token `t` is BETWEEN, IN or (after NOT) a negatable binary operator -/
+def parseTail (tbl : Table α) : Nat → Expr α → Bool → α → Nat → List (Tok α) → Option (Expr α × List (Tok α))
+  | 0, _, _, _, _, _ => none
+  | n + 1, lhs, neg, t, v, ts =>
+    if t = tbl.btw then
+      match tbl.bin tbl.and_ with
+      | some (la, _) =>
+        match parseE tbl n 0 true ts with
+        | some (lo, ts1) =>
+          match expectSym tbl.and_ ts1 with
+          | some ts2 =>
+            match parseE tbl n la false ts2 with
+            | some (hi, ts3) => some (.between lhs neg lo hi, ts3)
+            | none => none
+          | none => none
+        | none => none
+      | none => none
+    else if t = tbl.inn then
+      match expectLpar ts with
+      | some ts1 =>
+        match parseArgs tbl n ts1 with
+        | some (vs, ts2) =>
+          match expectRpar ts2 with
+          | some ts3 => some (.inl lhs neg vs, ts3)
+          | none => none
+        | none => none
+      | none => none
+    else if neg && tbl.negable t then
+      match tbl.bin t with
+      | some (l, _) =>
+        match parseE tbl n l false ts with
+        | some (rhs, ts1) => some (.nbin lhs t v rhs, ts1)
+        | none => none
+      | none => none
+    else none
 /-- with `lhs` parsed and `r` pending: shift the next operator, reduce (return), or fail -/
-def parseLoop (tbl : Table α) : Nat → Nat → Expr α → List (Tok α) → Option (Expr α × List (Tok α))
-  | 0, _, _, _ => none
-  | n + 1, r, lhs, ts =>
+def parseLoop (tbl : Table α) : Nat → Nat → Bool → Expr α → List (Tok α) → Option (Expr α × List (Tok α))
+  | 0, _, _, _, _ => none
+  | n + 1, r, ba, lhs, ts =>
     match ts with
     | .sym t v :: ts' =>
+      if ba && t = tbl.and_ then some (lhs, ts) else
       match tbl.bin t with
       | some (l, a) =>
         match act l a r with
         | .shift =>
-          match parseE tbl n l ts' with
-          | some (rhs, ts'') => parseLoop tbl n r (.bin lhs t v rhs) ts''
+          match parseE tbl n l false ts' with
+          | some (rhs, ts'') => parseLoop tbl n r ba (.bin lhs t v rhs) ts''
           | none => none
         | .reduce => some (lhs, ts)
         | .error => none
@@ -125,17 +272,46 @@ def parseLoop (tbl : Table α) : Nat → Nat → Expr α → List (Tok α) → O
           match act l a r with
           | .shift =>
             match postTail tbl ts' with
-            | some (neg, w, ts'') => parseLoop tbl n r (.post lhs t neg w) ts''
+            | some (neg, w, ts'') => parseLoop tbl n r ba (.post lhs t neg w) ts''
             | none => none
           | .reduce => some (lhs, ts)
           | .error => none
-        | none => some (lhs, ts)
+        | none =>
+          if t = tbl.neg then
+            match tbl.lvl t with
+            | some (l, a) =>
+              match act l a r with
+              | .shift =>
+                match nextSym ts' with
+                | some (t2, v2, ts2) =>
+                  match parseTail tbl n lhs true t2 v2 ts2 with
+                  | some (e, ts3) => parseLoop tbl n r ba e ts3
+                  | none => none
+                | none => none
+              | .reduce => some (lhs, ts)
+              | .error => none
+            | none => some (lhs, ts)
+          else if t = tbl.btw ∨ t = tbl.inn then
+            match tbl.lvl t with
+            | some (l, a) =>
+              match act l a r with
+              | .shift =>
+                match parseTail tbl n lhs false t v ts' with
+                | some (e, ts3) => parseLoop tbl n r ba e ts3
+                | none => none
+              | .reduce => some (lhs, ts)
+              | .error => none
+            | none => some (lhs, ts)
+          else some (lhs, ts)
     | _ => some (lhs, ts)
 end
 
+/-- fuel that suffices for a token list of this length (every call level consumes a token within three steps) -/
+def fuelFor (ts : List (Tok α)) : Nat := 4 * ts.length + 4
+
 /-- the whole token list is one expression -/
 def parse (tbl : Table α) (ts : List (Tok α)) : Option (Expr α) :=
-  match parseE tbl (3 * ts.length + 3) 0 ts with
+  match parseE tbl (fuelFor ts) 0 false ts with
   | some (e, []) => some e
   | _ => none
 
@@ -157,5 +333,11 @@ def genTable : Table Term where
   post t := if postfixOps.contains t then levelOf t else none
   neg := negationToken
   star := .c_star
+  lvl := levelOf
+  btw := .BETWEEN
+  and_ := .AND
+  inn := .IN
+  is_ := .IS
+  negable t := negatedOps.contains t
 
 end Csvq.OpExpr
